@@ -460,5 +460,14 @@ func RandCall(r *rand.Rand, mode string) Call {
 	if !found {
 		sl = 450
 	}
+	if found && sl >= 13 && sl < 100 {
+		// thousands of pieces per call cost TLC tens of minutes each (the predicate is quadratic in the text):
+		// with a small SplitLen a text of 1500 bytes already gives more than a hundred pieces
+		for i := range a {
+			if len(a[i]) > 1500 {
+				a[i] = a[i][:1500]
+			}
+		}
+	}
 	return Call{M: m.name, A: a, SL: sl}
 }
